@@ -178,6 +178,7 @@ fn run(args: &Args, entries: &[(usize, fn(&str, &str) -> Option<Parsed>, fn(&str
                 continue;
             }
         };
+        let types: std::collections::HashMap<String, pest_meta::ast::RuleType> = optimized.iter().map(|r| (r.name.clone(), r.ty)).collect();
         let vm = pest_vm::Vm::new(optimized);
         rep.count("grammars");
         let family = g["family"].as_str().unwrap_or("");
@@ -229,7 +230,8 @@ fn run(args: &Args, entries: &[(usize, fn(&str, &str) -> Option<Parsed>, fn(&str
                         match crate::errcheck::activations(&events) {
                             Err(m) => rep.inconclusive(json!({"why": m})),
                             Ok(acts) => {
-                                let problems = crate::errcheck::check(&acts, e, |l| l.windows(2).all(|w| rule_index(&w[0]) < rule_index(&w[1])));
+                                let mut problems = crate::errcheck::check(&acts, e, |l| l.windows(2).all(|w| rule_index(&w[0]) < rule_index(&w[1])));
+                                problems.extend(crate::errcheck::check_atomicity(&events, &types));
                                 if !problems.is_empty() {
                                     rep.violation(json!({"property":"C08","config":config,"backend":"derive","grammar_index":idx,"grammar":text,"rule":rule,"input":input,
                                         "expected": problems, "observed": {"pos": e.pos, "positives": e.positives, "negatives": e.negatives}}));
